@@ -188,6 +188,13 @@ Pipelined(c, orc, a, b) ==
   ELSE IF ~TraceNoRace(b.log, b.uf, c.xk) THEN "NoRaceBetweenBarriers"
   ELSE "ok"
 
+(* ---- C18: kernel recognition / expansion preserves the scalar function ---- *)
+SameScalar(c, orc, a, b) ==
+  IF b.fault # "none" THEN "B.fault:" \o b.fault
+  ELSE IF Len(a.log) = 0 \/ Len(b.log) = 0 THEN "NoYield"
+  ELSE IF a.log[Len(a.log)].vals # b.log[Len(b.log)].vals THEN "SameScalarFunction"
+  ELSE "ok"
+
 Judge(contract, c, orc, a, b) ==
   IF a.fault # "none" THEN "skipA:" \o a.fault
   ELSE CASE contract \in {"dedup", "overlap", "trace"} -> AccfgObs(a, b)
@@ -199,5 +206,6 @@ Judge(contract, c, orc, a, b) ==
          [] contract = "dispatch" -> Dispatch(c, orc, a, b)
          [] contract = "barriers" -> Barriers(c, orc, a, b)
          [] contract = "pipeline" -> Pipelined(c, orc, a, b)
+         [] contract = "scalar" -> SameScalar(c, orc, a, b)
          [] OTHER -> "machinery:unknown-contract"
 =============================================================================
